@@ -276,25 +276,32 @@ def run(ctx):
     acc, hwm, owner, dups, nev, tp = cl.validate_lifecycle(ctx, ordered, "strict")
     ctx.cov["lifecycle_events_validated"] = nev
     if not acc:
-        open_devs = [k.get("deviation") for k in ctx.kf if k.get("status") == "open" and k.get("property") == ctx.pid and k.get("deviation")]
-        tv_devs = [d for d in ("unregistered_not_closed", "will_timer_outlives_stop") if d in open_devs]
-        acc2 = False
-        if tv_devs:
-            acc2, hwm2, owner2, dups, nev, tp = cl.validate_lifecycle(ctx, ordered, "lenient", dev=tv_devs)
-            if not acc2:
-                hwm, owner = hwm2, owner2
-        if acc2:
-            for d in tv_devs:
-                for k in ctx.kf:
-                    if k.get("deviation") == d and k.get("property") == ctx.pid and k.get("status") == "open":
-                        ctx.known_finding(k["what"])
-            ctx.cov["lifecycle_strict_rejected_at"] = owner
+        # which recorded deviation (if any) explains the rejection?  one at a time, then both
+        tv = ["unregistered_not_closed", "will_timer_outlives_stop"]
+        explained = None
+        for devs in ([tv[0]], [tv[1]], tv):
+            acc2, hwm2, owner2, dups, nev, tp = cl.validate_lifecycle(ctx, ordered, "dev_" + "_".join(d[:5] for d in devs), dev=devs)
+            if acc2:
+                explained = devs
+                break
+        rid, rel = owner if owner else ("?", 0)
+        lines, _ = cl.lifecycle_lines(sres[rid]) if rid in sres else ([], False)
+        ev = lines[rel - 1] if 0 < rel <= len(lines) else {"e": "reset"}
+        sc = [s for s in st if s["id"] == rid]
+        if explained:
+            ctx.cov["lifecycle_strict_rejected_at"] = [rid, rel, ev]
+            ctx.cov["lifecycle_accepted_with"] = explained
+            for d in explained:
+                ctx.violation("lifecycle trace of %s rejected by TraceConn.tla at event %d (%s); accepted with deviation %s: events of a connection that was not in "
+                              "srv.clients when Stop looked continue after stop.end" % (rid, rel, json.dumps(ev), d),
+                              {"signature": cl.DEVIATIONS[d], "kind": "lifecycle-trace", "deviation": d, "scenario": sc[0] if sc else None, "line": rel, "event": ev,
+                               "trace": lines[max(0, rel - 40):rel + 8]})
         else:
-            rid, rel = owner if owner else ("?", 0)
+            rid, rel = owner2 if owner2 else (rid, rel)
             lines, _ = cl.lifecycle_lines(sres[rid]) if rid in sres else ([], False)
             ev = lines[rel - 1] if 0 < rel <= len(lines) else {"e": "reset"}
             sc = [s for s in st if s["id"] == rid]
-            ctx.violation("lifecycle trace of %s rejected by TraceConn.tla at event %d: %s" % (rid, rel, json.dumps(ev)),
+            ctx.violation("lifecycle trace of %s rejected by TraceConn.tla at event %d: %s (no recorded deviation explains it)" % (rid, rel, json.dumps(ev)),
                           {"signature": "lifecycle:" + ev.get("e", "?") + (":" + ev.get("g", "") if ev.get("g") else ""), "kind": "lifecycle-trace",
                            "scenario": sc[0] if sc else None, "line": rel, "event": ev, "trace": lines[:rel + 5]})
     for rid, cid, conn in dups:
